@@ -12,7 +12,9 @@ EXPL = ("R02.1 escaping taint: every string that reaches a raw append (push_raw_
         "R02.2 separator/member typestate (path-sensitive, with per-variant callee summaries and length-snapshot rollback): no list/"
         "object is closed, spliced or left at function exit while a buffer ends in a dangling ',' or ':', no ',' after an opening "
         "bracket or a known-empty buffer, no element directly after an element. R02.3 no byte is handed to the io::Write before the "
-        "validation verdict. R02.4 the last buffer of every vectored write ends with the newline literal. Not decided: that the "
+        "validation verdict. R02.4 the last buffer of every vectored write ends with the newline literal. R02.5 (the premise of "
+        "R02.2) every output buffer is reset before its first use in a call on all paths - also after a call that ended in an I/O or "
+        "validation error - so a record never starts from the leftovers of a failed one (same analysis as R14.2). Not decided: that the "
         "concatenation of the runtime-built prefixes nests correctly for every configuration.")
 CR = "metrique_writer_format_emf"
 
@@ -341,6 +343,12 @@ def run(ctx):
     # ------------------------------------------------------------------ R02.3 verdict before bytes
     verdict_before_bytes(ctx, F, "R02.3")
 
+    # ------------------------------------------------------------------ R02.5 premise of the typestate: buffers are clean at the start of a call
+    import rules.c14 as c14
+    before = len(ctx.instances)
+    c14.run(ctx, only_fields=("string_fields_buf", "fields_buf", "metrics_buf", "decl_buf", "dimension_set_map", "counts_buf", "dimensions_buf"), rule_prefix="R02.5")
+    ctx.floor("R02.5", "output buffers checked for reset-before-use", len([i for i in ctx.instances[before:] if i["rule"] == "R02.5" and "clean-at-first-use" in i["instance"]]), 7)
+
     # ------------------------------------------------------------------ R02.4 line framing
     nw = 0
     for b in F.all_bodies(CR):
@@ -392,15 +400,25 @@ def verdict_before_bytes(ctx, F, rule):
     memo = {}
 
     def verdict_target(b):
-        """block from which the validation verdict is known good (Continue edge of `build()?`)"""
+        """block from which the validation verdict is known good: the Ok / Continue edge of ValidationErrorBuilder::build(),
+        whether it is consumed by `?`, `match` or `if let Err(..)`"""
         out = []
         for c in b.calls():
             if c.name == "build" and "ValidationErrorBuilder" in c.def_:
-                # its result goes through Try::branch; find Continue target
+                via_try = False
                 for x in b.calls():
-                    if x.is_trait_method("Try", "branch") and x.args and ("call", c.bb) in Prov(b).operand(x.args[0]):
+                    if x.is_trait_method("Try", "branch") and x.args and ("call", c.bb) in Prov(b, adapters=()).operand(x.args[0]):
+                        via_try = True
                         for sw, tg, oth in switch_on_call_result(b, x):
                             out.append(tg.get(0, oth))
+                if not via_try:
+                    for sw, tg, oth in switch_on_call_result(b, c):
+                        # discriminant of Result: 0 = Ok; the Ok edge may also be the `otherwise` of an `if let Err`
+                        ok_t = tg.get(0)
+                        if ok_t is None and 1 in tg:
+                            ok_t = oth
+                        if ok_t is not None:
+                            out.append(ok_t)
         return out
 
     def dirty(b, stack=()):
